@@ -45,7 +45,7 @@ ASSUMPTIONS = [
     'an "Ensembl identifier" is a real stable gene id of the species (ENSMUSG/ENSG + 11 digits, optional .version); names that only '
     'look like one to the package\'s loose pattern (e.g. the human symbols ENSAP1, ENSAP3, which the package keeps unchanged) are never '
     'generated and are inconclusive to the oracle',
-    'non-integers are >= 0.01 away from an integer (the code treats |x - round(x)| <= 1e-10 as integer); a spec inside that band is inconclusive',
+    'non-integers are >= 1e-7 away from an integer (the code treats |x - round(x)| <= 1e-10 as integer); a spec with a distance below 1e-9 is inconclusive, and so is one whose only reason for a new file would be distances of 1e-9..1e-6',
     'values stay below 2^33 in magnitude; no NaN/inf',
     'rounding direction at exact halves is not asserted (only |delta| <= 1/2 and integrality)',
     'when rounding is requested but every value is already integer-valued the matrix must be exactly unchanged; its dtype may stay as it was',
@@ -253,8 +253,13 @@ def model(spec, x):
         if not np.all(np.isfinite(x)) or np.abs(x).max(initial=0) >= 2.0**33 + 2:
             raise Inconclusive('values outside the domain')
         dist = np.abs(x.astype(np.longdouble) - np.round(x.astype(np.longdouble)))
-        if np.any((dist > 0) & (dist < 1e-6)):
+        if np.any((dist > 0) & (dist < 1e-9)):
             raise Inconclusive('a value in the is-it-an-integer tolerance band')
+        renamed0 = any((k == 'unk') or (k in ('ens', 'sym') and t != nm) for (k, t), nm in zip(ref, genes))
+        if np.any((dist > 0) & (dist < 1e-6)) and spec['round'] and not (spec['layer'] is not None or renamed0):
+            # round-off sized distances (1e-9 .. 1e-6): whether such a file "needs no change" is a matter of the
+            # tolerance; when a file has to be written anyway, the statement applies in full (integers, integer type)
+            raise Inconclusive('only round-off sized fractions, and no other reason to write a file')
         needs_round = bool(spec['round'] and np.any(dist > 0))
     renamed = any((k == 'unk') or (k in ('ens', 'sym') and t != nm) for (k, t), nm in zip(ref, genes))
     need_file = (spec['layer'] is not None) or renamed or needs_round
